@@ -2066,6 +2066,11 @@ func (c *Conn) bufferHandshakeRecord(
 	header *recordlayer.Header,
 	markPacketAsValid func() bool,
 ) (packetOutcome, bool, bool) {
+	// Once the handshake is complete the peer has nothing new to say in
+	// unprotected handshake messages: they are still needed to recognise a
+	// retransmitted final flight, but no new message is kept (see below).
+	established := c.handshakeEstablished != nil && c.isHandshakeCompletedSuccessfully()
+
 	c.syncFragmentBufferHandshakeSequence()
 	isHandshake, isRetransmit, err := c.fragmentBuffer.Push(bytes.Clone(buf))
 	if err != nil {
@@ -2094,6 +2099,11 @@ func (c *Conn) bufferHandshakeRecord(
 		if err := header.Unmarshal(out); err != nil {
 			c.log.Debugf("%s: handshake parse failed: %s", srvCliStr(dtlsstate.CommonState(c.state).IsClient), err)
 
+			continue
+		}
+		if established && epoch == 0 {
+			// Nobody will read it and anybody could have sent it: do not
+			// let unprotected messages pile up in the cache.
 			continue
 		}
 		c.handshakeCache.Push(out, epoch, header.MessageSequence, header.Type, !dtlsstate.CommonState(c.state).IsClient)
